@@ -157,4 +157,15 @@ theorem namesFromKey_perm (x : Ext) (s : List String) (fl : Classify.Flags) {ops
   rw [← her]
   exact (sortStrings_perm ((hpr.map _).filter _)).symm
 
+/-! ### the visit order of `stripOAIGen` -/
+
+def geStr (a b : String) : Bool := strLe b a
+
+theorem stripOrder_perm {s s' : St} (hp : s.ctx.newRefs.Perm s'.ctx.newRefs) : stripOrder s = stripOrder s' := by
+  unfold stripOrder
+  refine Proofs.SortRef.mergeSort_eq_of_perm (fun a b => strLe b a) ?_ ?_ ?_ (hp.map _)
+  · intro a b c h1 h2; exact strLe_trans c b a h2 h1
+  · intro a b; rw [Bool.or_comm]; exact strLe_total a b
+  · intro a b h1 h2; exact strLe_antisymm a b h2 h1
+
 end Proofs.NamesPerm
